@@ -355,6 +355,7 @@ type Explorer struct {
 	MaxCandidates int
 	NoT2          bool
 
+	lemmaSqAbs            bool
 	randBudget, randCount int
 	pathSteps             int64
 	pathsSinceRestart     int
@@ -384,6 +385,7 @@ func (x *Explorer) beginPath(prefix []int64) {
 	x.chooses = nil
 	x.randBudget, x.randCount = 0, 0
 	lastPanicWhere = ""
+	x.lemmaSqAbs = false
 	x.pathSteps = 0
 	x.choicePos = 0
 	x.Observed = nil
